@@ -1000,4 +1000,405 @@ theorem getCallIDSig_noip (cid : Buf) (h4 : containsIP4 cid = none) (h6 : contai
   show (0 ||| (getStrCharsSig cid 0 0).1, scShortLen cid.size 0 (getStrCharsSig cid 0 0).2, false) = _
   rw [getStrCharsSig_eq, Nat.zero_or]
 
+theorem scShortLen_eq (size n skip : Nat) (h : n + skip ≤ size) :
+    scShortLen size n skip = min 255 ((size - n - skip + 3) / 4) := by
+  unfold scShortLen
+  simp only
+  split <;> omega
+
+/-- the text contains a dotted quad somewhere (four groups of one to three digits, each at most 255) -/
+def scHasIP4 (b : Buf) : Prop := ∃ p l t a0 a1 a2 a3, IsIP4 l a0 a1 a2 a3 ∧ b.toList.drop p = l ++ t
+
+/-- `[o, o + n)` is the LEFTMOST dotted quad of the text, taken as LONG as possible -/
+def scLeftmostLongest (b : Buf) (o n : Nat) : Prop :=
+  (o + n ≤ b.size ∧ ∃ a0 a1 a2 a3, IsIP4 ((b.toList.drop o).take n) a0 a1 a2 a3) ∧
+  (∀ p l t a0 a1 a2 a3, IsIP4 l a0 a1 a2 a3 → b.toList.drop p = l ++ t → o ≤ p) ∧
+  (∀ l t a0 a1 a2 a3, IsIP4 l a0 a1 a2 a3 → b.toList.drop o = l ++ t → l.length ≤ n)
+
+theorem IsIP4.length_pos {l : List UInt8} {a0 a1 a2 a3 : Nat} (h : IsIP4 l a0 a1 a2 a3) : 0 < l.length := by
+  obtain ⟨g0, g1, g2, g3, he, _⟩ := h
+  rw [he]; simp only [List.length_append, List.length_cons]; omega
+
+theorem containsIP4_ll (b : Buf) {o n : Nat} {ip : Array Nat} (h : containsIP4 b = some (o, n, ip)) :
+    scLeftmostLongest b o n := by
+  have hs := containsIP4_some b h
+  refine ⟨⟨?_, _, _, _, _, hs.2⟩, fun p l t a0 a1 a2 a3 => containsIP4_leftmost b h p l t a0 a1 a2 a3,
+    fun l t a0 a1 a2 a3 => containsIP4_longest b h l t a0 a1 a2 a3⟩
+  have h1 := hs.1
+  have hp := hs.2.length_pos
+  simp only [List.length_take, List.length_drop, Array.length_toList] at h1 hp
+  omega
+
+theorem scLeftmostLongest_unique (b : Buf) {o n o' n' : Nat} (h : scLeftmostLongest b o n)
+    (h' : scLeftmostLongest b o' n') : o' = o ∧ n' = n := by
+  obtain ⟨⟨hb, a0, a1, a2, a3, hi⟩, hl, hg⟩ := h
+  obtain ⟨⟨hb', a0', a1', a2', a3', hi'⟩, hl', hg'⟩ := h'
+  have e1 : o ≤ o' := hl o' _ _ _ _ _ _ hi' (List.take_append_drop n' _).symm
+  have e2 : o' ≤ o := hl' o _ _ _ _ _ _ hi (List.take_append_drop n _).symm
+  have eo : o' = o := by omega
+  subst eo
+  refine ⟨rfl, ?_⟩
+  have f1 := hg _ _ _ _ _ _ hi' (List.take_append_drop n' _).symm
+  have f2 := hg' _ _ _ _ _ _ hi (List.take_append_drop n _).symm
+  simp only [List.length_take, List.length_drop, Array.length_toList] at f1 f2
+  omega
+
+/-- ContainsIP4 reports exactly the leftmost dotted quad, as long as possible -/
+theorem containsIP4_iff_ll (b : Buf) (o n : Nat) :
+    (∃ ip, containsIP4 b = some (o, n, ip)) ↔ scLeftmostLongest b o n := by
+  constructor
+  · rintro ⟨ip, h⟩; exact containsIP4_ll b h
+  · intro h
+    rcases hc : containsIP4 b with _ | ⟨o', n', ip⟩
+    · exfalso
+      obtain ⟨⟨_, a0, a1, a2, a3, hi⟩, _, _⟩ := h
+      exact containsIP4_none b hc ⟨o, _, _, a0, a1, a2, a3, hi, (List.take_append_drop n _).symm⟩
+    · obtain ⟨e1, e2⟩ := scLeftmostLongest_unique b h (containsIP4_ll b hc)
+      subst e1; subst e2
+      exact ⟨ip, rfl⟩
+
+theorem containsIP4_none_iff (b : Buf) : containsIP4 b = none ↔ ¬ scHasIP4 b := by
+  constructor
+  · exact containsIP4_none b
+  · intro h
+    rcases hc : containsIP4 b with _ | ⟨o, n, ip⟩
+    · rfl
+    · exfalso
+      have := containsIP4_some b hc
+      exact h ⟨o, _, _, _, _, _, _, this.2, (List.take_append_drop n _).symm⟩
+
+theorem scIPFlag_testBit (o n size k : Nat) :
+    (scIPFlag o n size).testBit k =
+      if k = 0 then decide (o = 0)
+      else if k = 1 then decide (o ≠ 0 ∧ o + n = size)
+      else if k = 2 then decide (o ≠ 0 ∧ o + n ≠ size) else false := by
+  have e0 : SigIPStartF = 2 ^ 0 := rfl
+  have e1 : SigIPEndF = 2 ^ 1 := rfl
+  have e2 : SigIPMiddleF = 2 ^ 2 := rfl
+  unfold scIPFlag
+  by_cases ho : o = 0
+  · subst ho
+    simp only [BEq.rfl, ↓reduceIte, e0, Nat.testBit_two_pow]
+    by_cases hk : k = 0
+    · simp [hk]
+    · have : ¬ 0 = k := fun e => hk e.symm
+      simp [hk, this]
+  · have ho' : (o == 0) = false := by simpa using ho
+    simp only [ho', Bool.false_eq_true, ↓reduceIte]
+    by_cases he : o + n = size
+    · have he' : (o + n == size) = true := by simpa using he
+      simp only [he', ↓reduceIte, e1, Nat.testBit_two_pow]
+      by_cases hk0 : k = 0
+      · subst hk0; simp [ho]
+      by_cases hk1 : k = 1
+      · subst hk1; simp [ho, he]
+      have : ¬ 1 = k := fun e => hk1 e.symm
+      simp [hk0, hk1, this, he]
+    · have he' : (o + n == size) = false := by simpa using he
+      simp only [he', Bool.false_eq_true, ↓reduceIte, e2, Nat.testBit_two_pow]
+      by_cases hk0 : k = 0
+      · subst hk0; simp [ho]
+      by_cases hk1 : k = 1
+      · subst hk1; simp [he]
+      by_cases hk2 : k = 2
+      · subst hk2; simp [ho, he]
+      have : ¬ 2 = k := fun e => hk2 e.symm
+      simp [hk0, hk1, hk2, this]
+
+/-- **IP-position flags of the Call-ID signature, IPv4**: when the Call-ID contains a dotted quad, let `[o, o+n)` be
+    its leftmost occurrence (as long as possible). Then exactly one of the three position bits is set: bit 0 iff it
+    starts the Call-ID, bit 1 iff it does not but ends it, bit 2 otherwise. Bits 3–12 are the class bits of the
+    bytes OUTSIDE `[o, o+n)`. No "Go would panic" indication. -/
+theorem getCallIDSig_ip4_bits (cid : Buf) (o n : Nat) (H : scLeftmostLongest cid o n) :
+    ((getCallIDSig cid).1.testBit 0 = decide (o = 0)) ∧
+    ((getCallIDSig cid).1.testBit 1 = decide (o ≠ 0 ∧ o + n = cid.size)) ∧
+    ((getCallIDSig cid).1.testBit 2 = decide (o ≠ 0 ∧ o + n ≠ cid.size)) ∧
+    (∀ k, 3 ≤ k → k ≤ 12 → ((getCallIDSig cid).1.testBit k = true ↔
+      ∃ j c, cid[j]? = some c ∧ ¬ (o ≤ j ∧ j < o + n) ∧ scIsRes c = true ∧ scByteBit c = k)) ∧
+    (getCallIDSig cid).2.2 = false := by
+  obtain ⟨ip, h⟩ := (containsIP4_iff_ll cid o n).mpr H
+  rw [getCallIDSig_ip4 cid h]
+  have hlow := getStrCharsSig_span_low cid o n
+  refine ⟨?_, ?_, ?_, ?_, rfl⟩
+  · rw [Nat.testBit_or, hlow 0 (by omega), Bool.or_false, scIPFlag_testBit]; rfl
+  · rw [Nat.testBit_or, hlow 1 (by omega), Bool.or_false, scIPFlag_testBit]; rfl
+  · rw [Nat.testBit_or, hlow 2 (by omega), Bool.or_false, scIPFlag_testBit]; rfl
+  · intro k h3 h12
+    have : (scIPFlag o n cid.size).testBit k = false := by
+      rw [scIPFlag_testBit, if_neg (by omega), if_neg (by omega), if_neg (by omega)]
+    show (scIPFlag o n cid.size ||| (getStrCharsSig cid o n).1).testBit k = true ↔ _
+    rw [Nat.testBit_or, this, Bool.false_or]
+    exact getStrCharsSig_span_bit cid o n k h12
+
+/-- **no address**: without a dotted quad and with ContainsIP6 finding nothing, no position bit is set and the
+    signature is that of the whole Call-ID (`scSig`); the short length is a quarter of the length, at most 255 -/
+theorem getCallIDSig_noip_eq (cid : Buf) (h4 : ¬ scHasIP4 cid) (h6 : containsIP6 cid = none) :
+    getCallIDSig cid = (scSig cid.toList, min 255 ((cid.size + 3) / 4), false) := by
+  rw [getCallIDSig_noip cid ((containsIP4_none_iff cid).mpr h4) h6, scShortLen_eq _ 0 0 (by omega)]
+  rfl
+
+/-- the position bits are set only when ContainsIP4 or ContainsIP6 reports an address -/
+theorem getCallIDSig_flags_need_ip (cid : Buf) (k : Nat) (hk : k < 3) (h : (getCallIDSig cid).1.testBit k = true) :
+    scHasIP4 cid ∨ (containsIP6 cid).isSome = true := by
+  by_cases h4 : scHasIP4 cid
+  · exact Or.inl h4
+  · right
+    rcases h6 : containsIP6 cid with _ | r
+    · rw [getCallIDSig_noip_eq cid h4 h6] at h
+      have := scSig_testBit cid.toList k
+      rw [if_pos (by omega), scClass_bit_other _ k (Or.inl hk)] at this
+      rw [this] at h; cases h
+    · rfl
+
+/-! ### `getViaBrSig` -/
+
+/-- the text of the value of a parsed parameter -/
+def scValOf (b : Buf) (tp : PTokParam) : Buf := b.extract tp.val.offs (tp.val.offs + tp.val.len)
+
+/-- the parameter is called `branch` (any case) -/
+def scIsBranch (b : Buf) (tp : PTokParam) : Bool := tp.name.len == 6 && cmpEqL (nameOf b tp) sBranch
+
+/-- the part of a branch value that is fingerprinted: the value without the magic cookie `z9hG4bK` (any case) when
+    it starts with the cookie and is longer than it, the whole value otherwise -/
+def scBranchBody (val : Buf) : Buf :=
+  if val.size > 7 && cmpEqL (val.extract 0 7) sBrPrefix then val.extract 7 val.size else val
+
+/-- signature and length for a branch value -/
+def scBranchSig (val : Buf) : Nat × Nat × Bool :=
+  ((getStrCharsSig (scBranchBody val) 0 0).1, (scBranchBody val).size, false)
+
+/-- what `GetViaBrSig` returns for a parameter list: the FIRST parameter called `branch` decides -/
+def scViaResult (b : Buf) (tps : List PTokParam) : Nat × Nat × Bool :=
+  match tps.find? (scIsBranch b) with
+  | none => (0, 0, false)
+  | some tp => if tp.val.len > 0 then scBranchSig (scValOf b tp) else (0, 0, false)
+
+theorem QBody.le_size {b : Buf} {i e : Nat} (h : QBody b i e) : e ≤ b.size := by
+  induction h with
+  | close i h => have := get?_lt h; omega
+  | plain i e c _ _ _ ih => exact ih
+  | esc i e c1 _ _ _ _ ih => exact ih
+
+theorem GParam.pnc_false {b : Buf} {flags o o' : Nat} {e : Err} {tp : PTokParam} (H : GParam b flags o o' e tp) :
+    tp.pnc = false := by
+  cases H <;> rfl
+
+/-- the value of a parameter of the grammar lies inside the buffer -/
+theorem GParam.val_get {b : Buf} {flags o o' : Nat} {e : Err} {tp : PTokParam} (hfit : b.size ≤ 65535)
+    (H : GParam b flags o o' e tp) (hv : tp.val.len > 0) : tp.val.get? b = some (scValOf b tp) := by
+  cases H with
+  | noValue t n0 n1 o'' e' st hpad hl hr hn hE => exact absurd hv (Nat.lt_irrefl 0)
+  | token t n0 n1 q v0 v1 o'' e' st hpad hl hr hn hlq h61 hlv hrv hv' hE =>
+    have := hrv.le_size hv'
+    exact field_get? b v0 (v1 - v0) (by omega) hfit
+  | quoted t n0 n1 q v0 qe o'' e' st hpad hl hr hn hlq h61 hlv h34 hq hE =>
+    have h1 := hq.le_size
+    have h2 := hq.lt
+    exact field_get? b v0 (qe - v0) (by omega) hfit
+  | emptyVal t n0 n1 q s o'' e' st hpad hl hr hn hlq h61 hlv hs hA => exact absurd hv (Nat.lt_irrefl 0)
+
+theorem scBranchSig_eq (val : Buf) :
+    (if val.size > 7 && cmpEqL (val.extract 0 7) sBrPrefix then
+       ((getStrCharsSig (val.extract 7 val.size) 0 0).1, val.size - 7, false)
+     else ((getStrCharsSig val 0 0).1, val.size, false)) = scBranchSig val := by
+  unfold scBranchSig scBranchBody
+  by_cases h : (decide (val.size > 7) && cmpEqL (val.extract 0 7) sBrPrefix) = true
+  · simp only [h, ↓reduceIte]
+    simp only [Bool.and_eq_true, decide_eq_true_eq] at h
+    have : (val.extract 7 val.size).size = val.size - 7 := by simp
+    rw [this]
+  · simp only [h, Bool.false_eq_true, ↓reduceIte]
+
+/-- one iteration of the loop of `GetViaBrSig` on a parameter of the grammar -/
+theorem viaBrLoop_gparam {b : Buf} {o o' : Nat} {e : Err} {tp : PTokParam} (hfit : b.size ≤ 65535)
+    (H : GParam b viaBrFlags o o' e tp) (he : e = .ok ∨ e = .moreValues ∨ e = .eoh) :
+    viaBrLoop b o =
+      if scIsBranch b tp then (if tp.val.len > 0 then scBranchSig (scValOf b tp) else (0, 0, false))
+      else if e = .moreValues then viaBrLoop b o' else (0, 0, false) := by
+  rw [viaBrLoop, H.parse hfit]
+  simp only [H.pnc_false, Bool.false_eq_true, ↓reduceIte]
+  have hee : (e == .ok || e == .moreValues || e == .eoh) = true := by
+    rcases he with h | h | h <;> subst h <;> rfl
+  simp only [hee, ↓reduceIte]
+  have hname := H.name_get hfit
+  unfold scIsBranch
+  by_cases h6 : (tp.name.len == 6) = true
+  · simp only [h6, ↓reduceIte, hname, Option.map_some, Bool.true_and]
+    cases hb : cmpEqL (nameOf b tp) sBranch
+    · simp only [Bool.false_eq_true, ↓reduceIte]
+      by_cases hm : e = .moreValues
+      · subst hm
+        have hr := H.more_range
+        simp only [BEq.rfl, ↓reduceIte, hr.1, hr.2, and_self]
+      · have : (e == .moreValues) = false := by
+          rcases he with h | h | h <;> subst h <;> first | rfl | exact absurd rfl hm
+        simp only [this, Bool.false_eq_true, ↓reduceIte, hm]
+    · simp only [↓reduceIte]
+      by_cases hv : tp.val.len > 0
+      · simp only [hv, ↓reduceIte, H.val_get hfit hv]
+        exact scBranchSig_eq _
+      · simp only [hv, ↓reduceIte]
+  · have h6' : (tp.name.len == 6) = false := by simpa using h6
+    simp only [h6', Bool.false_eq_true, ↓reduceIte, Bool.false_and]
+    by_cases hm : e = .moreValues
+    · subst hm
+      have hr := H.more_range
+      simp only [BEq.rfl, ↓reduceIte, hr.1, hr.2, and_self]
+    · have : (e == .moreValues) = false := by
+        rcases he with h | h | h <;> subst h <;> first | rfl | exact absurd rfl hm
+      simp only [this, Bool.false_eq_true, ↓reduceIte, hm]
+
+/-- **the loop of `GetViaBrSig` on a parameter list of the grammar**: the first parameter called `branch` decides;
+    later ones are ignored; without one the signature is empty -/
+theorem viaBrLoop_glist {b : Buf} {o o' : Nat} {e : Err} {tps : List PTokParam} (hfit : b.size ≤ 65535)
+    (H : GList b viaBrFlags o tps o' e) : viaBrLoop b o = scViaResult b tps := by
+  induction H with
+  | last o o' e tp hg he =>
+    rw [viaBrLoop_gparam hfit hg (by rcases he with h | h <;> simp [h])]
+    unfold scViaResult
+    have hm : ¬ e = .moreValues := by rcases he with h | h <;> subst h <;> intro h' <;> cases h'
+    cases hb : scIsBranch b tp
+    · simp [hb, hm]
+    · simp [hb]
+  | cons o next tp rest o' e hg _ ih =>
+    rw [viaBrLoop_gparam hfit hg (Or.inr (Or.inl rfl))]
+    unfold scViaResult
+    cases hb : scIsBranch b tp
+    · simp only [Bool.false_eq_true, ↓reduceIte, List.find?_cons, hb]
+      exact ih
+    · simp [hb]
+
+/-- no `;` in the Via value: no parameters, empty signature -/
+theorem getViaBrSig_no_semicolon (b : Buf) (h : ∀ k : Nat, b[k]? ≠ some 59) : getViaBrSig b = (0, 0, false) := by
+  unfold getViaBrSig
+  rcases hidx : indexByteFrom b 0 59 with _ | d
+  · rfl
+  · exact absurd (indexByteFrom_some b 0 59 hidx).2.1 (h d)
+
+/-- the parameters are read from the byte after the FIRST `;` -/
+theorem getViaBrSig_first_semicolon (b : Buf) (s : Nat) (hs : b[s]? = some 59) (hf : ∀ k : Nat, k < s → b[k]? ≠ some 59) :
+    getViaBrSig b = viaBrLoop b (s + 1) := by
+  unfold getViaBrSig
+  rcases hidx : indexByteFrom b 0 59 with _ | d
+  · exact absurd hs (indexByteFrom_none b 0 59 hidx s (Nat.zero_le _))
+  · have h := indexByteFrom_some b 0 59 hidx
+    have e : d = s := by
+      rcases Nat.lt_trichotomy d s with h1 | h1 | h1
+      · exact absurd h.2.1 (hf d h1)
+      · exact h1
+      · exact absurd hs (h.2.2 s (Nat.zero_le _) h1)
+    subst e; rfl
+
+/-- **`GetViaBrSig` on a Via value `sent-protocol sent-by ; params`** (first `;` at `s`, then a parameter list of the
+    C17 grammar with separator `;`, ended by `,` or the end of the value): the signature is that of the value of
+    the FIRST parameter called `branch` (case-insensitive), without the magic cookie; an empty or missing value, or
+    no such parameter, gives the empty signature; a later `branch` is ignored; Go does not panic -/
+theorem getViaBrSig_glist (b : Buf) (s o' : Nat) (e : Err) (tps : List PTokParam) (hfit : b.size ≤ 65535)
+    (hs : b[s]? = some 59) (hf : ∀ k : Nat, k < s → b[k]? ≠ some 59) (H : GList b viaBrFlags (s + 1) tps o' e) :
+    getViaBrSig b = scViaResult b tps := by
+  rw [getViaBrSig_first_semicolon b s hs hf, viaBrLoop_glist hfit H]
+
+/-- a later `branch` is ignored: the result depends only on the list up to and including the first `branch` -/
+theorem scViaResult_first (b : Buf) (l1 l2 : List PTokParam) (tp : PTokParam) (h1 : ∀ x ∈ l1, scIsBranch b x = false)
+    (hb : scIsBranch b tp = true) :
+    scViaResult b (l1 ++ tp :: l2) = if tp.val.len > 0 then scBranchSig (scValOf b tp) else (0, 0, false) := by
+  unfold scViaResult
+  have : (l1 ++ tp :: l2).find? (scIsBranch b) = some tp := by
+    rw [List.find?_append]
+    have : l1.find? (scIsBranch b) = none := by
+      rw [List.find?_eq_none]; intro x hx; rw [h1 x hx]; simp
+    rw [this, List.find?_cons, hb]; rfl
+  rw [this]
+
+theorem scViaResult_none (b : Buf) (l : List PTokParam) (h : ∀ x ∈ l, scIsBranch b x = false) :
+    scViaResult b l = (0, 0, false) := by
+  unfold scViaResult
+  have : l.find? (scIsBranch b) = none := by
+    rw [List.find?_eq_none]; intro x hx; rw [h x hx]; simp
+  rw [this]
+
+/-! ### the signature depends on the CLASSES only -/
+
+/-- what the signature reads of a first occurrence: type, compact form, and (for a Via) the branch signature -/
+def scKeyClass (k : SigKey) : Nat × Bool × Nat := (k.type, k.compact, k.viaSig 0)
+
+theorem scEntry_congr (k k' : SigKey) (m : Nat) (h : scKeyClass k = scKeyClass k') : k.entry m = k'.entry m := by
+  unfold scKeyClass at h
+  injection h with h1 h2
+  injection h2 with h2 h3
+  unfold SigKey.entry SigKey.counted
+  rw [h1, h2]
+
+theorem scFlatMap_congr (fs fs' : List SigKey) (m : Nat) (h : fs.map scKeyClass = fs'.map scKeyClass) :
+    fs.flatMap (fun k => k.entry m) = fs'.flatMap (fun k => k.entry m) := by
+  induction fs generalizing fs' with
+  | nil =>
+    cases fs' with
+    | nil => rfl
+    | cons a r => simp at h
+  | cons a r ih =>
+    cases fs' with
+    | nil => simp at h
+    | cons a' r' =>
+      rw [List.map_cons, List.map_cons] at h
+      injection h with h1 h2
+      rw [List.flatMap_cons, List.flatMap_cons, scEntry_congr a a' m h1, ih r' h2]
+
+theorem scFindVia_congr (fs fs' : List SigKey) (s : MsgSig) (hs : s.viaBSig = 0)
+    (h : fs.map scKeyClass = fs'.map scKeyClass) : (sigApply fs s).viaBSig = (sigApply fs' s).viaBSig := by
+  induction fs generalizing fs' with
+  | nil =>
+    cases fs' with
+    | nil => rfl
+    | cons a r => simp at h
+  | cons a r ih =>
+    cases fs' with
+    | nil => simp at h
+    | cons a' r' =>
+      rw [List.map_cons, List.map_cons] at h
+      injection h with h1 h2
+      have ht : a.type = a'.type := congrArg (·.1) h1
+      have hv : a.viaSig 0 = a'.viaSig 0 := congrArg (·.2.2) h1
+      have ih' := ih r' h2
+      simp only [sigApply, List.find?_cons] at ih' ⊢
+      rw [ht]
+      cases a'.type == HdrVia
+      · exact ih'
+      · simp only [hs]; exact hv
+
+/-- the signature built from the first occurrences depends on them only through their classes -/
+theorem sigApply_congr_class (fs fs' : List SigKey) (s : MsgSig) (hs : s.viaBSig = 0)
+    (h : fs.map scKeyClass = fs'.map scKeyClass) : sigApply fs s = sigApply fs' s := by
+  have h1 := scFindVia_congr fs fs' s hs h
+  have h2 := scFlatMap_congr fs fs' s.method h
+  unfold sigApply at h1 ⊢
+  simp only at h1
+  rw [h1, h2]
+
+/-- **C19 in its own words**: two requests that agree on the method, on the first occurrences of the fingerprinted
+    headers (type and long / compact form, in order), on the Call-ID signature and short length, on the From-tag
+    signature and on the branch signature of the first Via have the same signature — whatever the bytes of
+    Call-ID, From-tag and Via are, and whatever else differs -/
+theorem getMsgSig_same_classes (m m' : PSIPMsg) (b b' : Buf) (hr : m.request = true) (hr' : m'.request = true)
+    (cid tag cid' tag' : Buf)
+    (hc : m.pv.callid.callID.get? (b.extract 0 m.bufLen) = some cid)
+    (ht : m.pv.from_.tag.get? (b.extract 0 m.bufLen) = some tag)
+    (hc' : m'.pv.callid.callID.get? (b'.extract 0 m'.bufLen) = some cid')
+    (ht' : m'.pv.from_.tag.get? (b'.extract 0 m'.bufLen) = some tag')
+    (hcov : FlagsCover m.hl.pflags m.hl.hdrs.toList) (hcov' : FlagsCover m'.hl.pflags m'.hl.hdrs.toList)
+    (hmeth : m'.fl.methodNo = m.fl.methodNo)
+    (hcid : (getCallIDSig cid').1 = (getCallIDSig cid).1) (hclen : (getCallIDSig cid').2.1 = (getCallIDSig cid).2.1)
+    (htag : (getStrCharsSig tag' 0 0).1 = (getStrCharsSig tag 0 0).1)
+    (hfirsts : (sigFirsts [] (m'.hl.hdrs.toList.map (hdrKey (b'.extract 0 m'.bufLen)))).map scKeyClass =
+               (sigFirsts [] (m.hl.hdrs.toList.map (hdrKey (b.extract 0 m.bufLen)))).map scKeyClass) :
+    (getMsgSig m' b').1 = (getMsgSig m b).1 := by
+  rw [getMsgSig_request m b hr cid tag hc ht, getMsgSig_request m' b' hr' cid' tag' hc' ht']
+  show (msgSigLoop _ _ _ _).1.sig = (msgSigLoop _ _ _ _).1.sig
+  rw [(msgSigLoop_view _ _ _ _ cid tag hcov).1, (msgSigLoop_view _ _ _ _ cid' tag' hcov').1]
+  have hinit : (sigInit m'.fl.methodNo cid' tag').sig = (sigInit m.fl.methodNo cid tag).sig := by
+    unfold sigInit
+    simp only [hmeth, hcid, hclen, htag]
+  rw [hinit]
+  exact sigApply_congr_class _ _ _ rfl hfirsts
+
 end Sipsp
